@@ -17,7 +17,7 @@ for name, lst in sorted(repo.classes.items()):
     for rel, cls in lst:
         if rel.endswith("_trio.py"):
             continue
-        fs = class_fields(cls)
+        fs = class_fields(cls, repo.modules[rel])
         if fs:
             table[f"{rel}::{name}"] = {k: sorted(v) for k, v in sorted(fs.items())}
 json.dump(table, open(os.path.join(VERIF, "sa", "engine", "fields.json"), "w"), indent=0, sort_keys=True)
